@@ -6,6 +6,7 @@ import Mahotas.Proofs.C04Term
 import Mahotas.Proofs.C04Lines
 import Mahotas.Proofs.C04Order
 import Mahotas.Proofs.C04LinesExact
+import Mahotas.Proofs.C04View
 open Mahotas Mahotas.C04
 
 /-- **C04-T3 (the kernel is the specified flooding).** For every surface (any rank, shape, values),
@@ -318,4 +319,135 @@ example :
     ((cwatershedSpecTrace surf mk [3, 3] bc).filter
         (fun ev => ev.lq != 0 && ev.queued && ev.lp != ev.lq)).map (fun ev => (ev.p, ev.q, ev.lp, ev.lq))
       = [([1, 1], [0, 1], 2, 1), ([1, 1], [1, 0], 2, 1), ([0, 1], [0, 2], 1, 2)] := by
+  decide +kernel
+
+/-! ## Round 4 — T6: layout and dtype independence; the marker cast -/
+
+open Mahotas.C08 in
+/-- **C04-T6a (the kernel on views = the specified flooding of the logical arrays, any memory layout).**
+`C08.cwatershedView` is `cwatershed<T>` as it reads its arguments: the surface and the markers only through
+`aligned_array::at_flat(i)`, `i < N` (the repaired loop `c = p % dim(d); p /= dim(d)` for a strided array, `data()[p]`
+for a C-array), the structuring element through its own iterator. For EVERY base address and EVERY element strides
+(negative, zero, transposed, sliced — `View.WF` only asks for one stride per axis, and that an array flagged as a C-array
+has C strides) of the three arrays and every memory content: labels and lines of the view kernel are exactly the labels
+and lines of the SPECIFICATION flooding (`cwatershedSpec`: priority queue on (cost, insertion index) over coordinates)
+run on the logical contents `logicalImg mem view` (element `k` = memory at the address of the `k`-th position in C order;
+`logicalImg` is `C08.toImg`, by `rfl`).
+Hence the result depends on the three arguments only through their logical contents. Hypotheses: the markers have
+the surface's shape and the element its rank (both enforced by `morph.py`). -/
+theorem C04_view_eq_spec (mS mM mB : Int → Int) (vS vM vB : View) (wS : vS.WF) (wM : vM.WF) (wB : vB.WF)
+    (hm : vM.shape = vS.shape) (hb : vB.shape.length = vS.shape.length) :
+    (cwatershedView mS vS mM vM mB vB).res =
+      (cwatershedSpec (logicalImg mS vS) (logicalImg mM vM) vB.shape (logical mB vB).toArray).label.data ∧
+    (cwatershedView mS vS mM vM mB vB).lines =
+      (cwatershedSpec (logicalImg mS vS) (logicalImg mM vM) vB.shape (logical mB vB).toArray).lines.data ∧
+    cwatershedView mS vS mM vM mB vB =
+      cwatershedModel (logicalImg mS vS) (logicalImg mM vM) vB.shape (logical mB vB).toArray := by
+  have e : cwatershedView mS vS mM vM mB vB =
+      cwatershedModel (logicalImg mS vS) (logicalImg mM vM) vB.shape (logical mB vB).toArray := by
+    unfold cwatershedView
+    rw [flatImg_eq_logicalImg _ _ wS, flatImg_eq_logicalImg _ _ wM, filtVals_eq_logical _ _ wB]
+  have r := C04_model_refines_flood (logicalImg mS vS) (logicalImg mM vM) vB.shape (logical mB vB).toArray hm hb
+  exact ⟨by rw [e, r.1], by rw [e, r.2.1], e⟩
+
+open Mahotas.C08 in
+/-- **C04-T6 (layout AND dtype independence).** Two calls whose marker arrays and structuring elements have the same
+logical content (any two layouts each) and whose surfaces — of one shape, in any two layouts, holding values of any two
+cost types — are ORDER-ISOMORPHIC (`surf₁[i] < surf₁[j] ↔ surf₂[i] < surf₂[j]` for all pixels: e.g. an integer surface
+and the same numbers stored as float64, a float surface and its dense ranks, a uint8 surface and its int64 copy) give
+the same label image and the same lines image. Composition of `C04_view_eq_spec` with `C04_spec_order_invariant`. What
+is assumed about the C++: `MarkerInfo<T>::operator<` on the non-NaN values of `T` is the numeric order. -/
+theorem C04_view_layout_dtype_independent (mS₁ mS₂ mM₁ mM₂ mB₁ mB₂ : Int → Int) (vS₁ vS₂ vM₁ vM₂ vB₁ vB₂ : View)
+    (wS₁ : vS₁.WF) (wS₂ : vS₂.WF) (wM₁ : vM₁.WF) (wM₂ : vM₂.WF) (wB₁ : vB₁.WF) (wB₂ : vB₂.WF)
+    (hm : vM₁.shape = vS₁.shape) (hb : vB₁.shape.length = vS₁.shape.length) (hs : vS₂.shape = vS₁.shape)
+    (hM : logicalImg mM₂ vM₂ = logicalImg mM₁ vM₁) (hB : vB₂.shape = vB₁.shape ∧ logical mB₂ vB₂ = logical mB₁ vB₁)
+    (hord : ∀ i j, i < shapeSize vS₁.shape → j < shapeSize vS₁.shape →
+      ((logicalImg mS₁ vS₁).data.getD i 0 < (logicalImg mS₁ vS₁).data.getD j 0 ↔
+        (logicalImg mS₂ vS₂).data.getD i 0 < (logicalImg mS₂ vS₂).data.getD j 0)) :
+    (cwatershedView mS₂ vS₂ mM₂ vM₂ mB₂ vB₂).res = (cwatershedView mS₁ vS₁ mM₁ vM₁ mB₁ vB₁).res ∧
+    (cwatershedView mS₂ vS₂ mM₂ vM₂ mB₂ vB₂).lines = (cwatershedView mS₁ vS₁ mM₁ vM₁ mB₁ vB₁).lines := by
+  have hm₂ : vM₂.shape = vS₂.shape := by
+    have : (logicalImg mM₂ vM₂).shape = (logicalImg mM₁ vM₁).shape := by rw [hM]
+    rw [hs, ← hm]; exact this
+  have hb₂ : vB₂.shape.length = vS₂.shape.length := by rw [hB.1, hs]; exact hb
+  obtain ⟨a1, a2, _⟩ := C04_view_eq_spec mS₁ mM₁ mB₁ vS₁ vM₁ vB₁ wS₁ wM₁ wB₁ hm hb
+  obtain ⟨b1, b2, _⟩ := C04_view_eq_spec mS₂ mM₂ mB₂ vS₂ vM₂ vB₂ wS₂ wM₂ wB₂ hm₂ hb₂
+  obtain ⟨o1, o2⟩ := C04_spec_order_invariant (logicalImg mS₁ vS₁) (logicalImg mS₂ vS₂) (logicalImg mM₁ vM₁) vB₁.shape
+    (logical mB₁ vB₁).toArray hs hord
+  rw [a1, a2, b1, b2, hM, hB.1, hB.2, o1, o2]
+  exact ⟨rfl, rfl⟩
+
+/-- **C04 (the marker cast, `morph.py:314`).** `castMarker` — `np.asanyarray(markers, np.int64)` on one value — is the
+identity on `[−2⁶³, 2⁶³)` (every value of bool, int8…int64, uint8…uint32 marker images), maps a `uint64` value
+`v ≥ 2⁶³` to the negative label `v − 2⁶⁴`, always lands in the int64 range, and is zero exactly when the caller's value
+is zero (for every value of every integer dtype): the SET of marker pixels is the caller's, the labels are the cast
+values. So for every marker dtype but `uint64` `cwatershedPy = cwatershedModel` on the caller's markers, and all C04
+theorems apply to `cwatershedPy` with `castMarkers markers` for `markers` — "markers keep their labels" is about the cast
+values (a `uint64` label `2⁶⁴ − 1` comes back as `−1`). -/
+theorem C04_marker_cast (v : Int) :
+    (-9223372036854775808 ≤ v → v < 9223372036854775808 → castMarker v = v) ∧
+    (9223372036854775808 ≤ v → v < 18446744073709551616 → castMarker v = v - 18446744073709551616) ∧
+    (-9223372036854775808 ≤ castMarker v ∧ castMarker v < 9223372036854775808) ∧
+    (-9223372036854775808 ≤ v → v < 18446744073709551616 → (castMarker v = 0 ↔ v = 0)) := by
+  unfold castMarker
+  simp only []
+  refine ⟨fun h1 h2 => ?_, fun h1 h2 => ?_, ?_, fun h1 h2 => ?_⟩ <;> split <;> omega
+
+/-- `cwatershedPy` on markers that fit int64 is the kernel on the caller's markers. -/
+theorem C04_py_eq_model_of_int64 (surf markers : Img Int) (bshape : List Nat) (bc : Array Int)
+    (h : ∀ v ∈ markers.data.toList, -9223372036854775808 ≤ v ∧ v < 9223372036854775808) :
+    cwatershedPy surf markers bshape bc = cwatershedModel surf markers bshape bc := by
+  unfold cwatershedPy castMarkers
+  have : markers.data.map castMarker = markers.data := by
+    apply Array.ext (by simp)
+    intro i h1 h2
+    rw [Array.getElem_map]
+    exact (C04_marker_cast _).1 (h _ (by simp)).1 (h _ (by simp)).2
+  rw [this]
+
+/-- non-vacuity of T6a: the 2×3 surface `[[0,1,2],[1,0,1]]` stored in FORTRAN order (element strides `(1, 2)`, memory
+`0,1,1,0,2,1`) with the markers stored reversed (base 5, strides `(-3, -1)`): the view kernel returns the labels and
+lines of the C-contiguous example above; both views are well-formed, neither is a C-array. -/
+example :
+    let mS : Int → Int := fun a => (#[0, 1, 1, 0, 2, 1] : Array Int).getD a.toNat 0
+    let mM : Int → Int := fun a => (#[2, 0, 0, 0, 0, 1] : Array Int).getD a.toNat 0
+    let mB : Int → Int := fun a => (#[0, 1, 0, 1, 1, 1, 0, 1, 0] : Array Int).getD a.toNat 0
+    let vS : C08.View := { base := 0, shape := [2, 3], strides := [1, 2] }
+    let vM : C08.View := { base := 5, shape := [2, 3], strides := [-3, -1] }
+    let vB : C08.View := { base := 0, shape := [3, 3], strides := [3, 1], carray := true }
+    (logicalImg mS vS).data = #[0, 1, 2, 1, 0, 1] ∧ (logicalImg mM vM).data = #[1, 0, 0, 0, 0, 2] ∧
+    (C08.cwatershedView mS vS mM vM mB vB).res = #[1, 1, 2, 1, 2, 2] ∧
+    (C08.cwatershedView mS vS mM vM mB vB).lines = #[false, true, true, true, false, false] := by
+  decide +kernel
+example (mS mM mB : Int → Int) :
+    let vS : C08.View := { base := 0, shape := [2, 3], strides := [1, 2] }
+    let vM : C08.View := { base := 5, shape := [2, 3], strides := [-3, -1] }
+    let vB : C08.View := { base := 0, shape := [3, 3], strides := [3, 1], carray := true }
+    (C08.cwatershedView mS vS mM vM mB vB).res =
+      (cwatershedSpec (logicalImg mS vS) (logicalImg mM vM) vB.shape (C08.logical mB vB).toArray).label.data := by
+  intro vS vM vB
+  have wS : vS.WF := ⟨rfl, by intro h; cases h⟩
+  have wM : vM.WF := ⟨rfl, by intro h; cases h⟩
+  have wB : vB.WF := ⟨rfl, fun _ => by decide⟩
+  exact (C04_view_eq_spec mS mM mB vS vM vB wS wM wB rfl rfl).1
+
+/-- non-vacuity of the marker cast: `uint64` labels at and above `2⁶³`, and a surface flooded from such a marker -/
+example : castMarker 18446744073709551615 = -1 ∧ castMarker 9223372036854775808 = -9223372036854775808 ∧
+    castMarker 255 = 255 ∧ castMarker (-128) = -128 ∧
+    (cwatershedPy ⟨[1, 3], #[0, 0, 0]⟩ ⟨[1, 3], #[18446744073709551615, 0, 0]⟩ [1, 3] #[1, 1, 1]).res = #[-1, -1, -1] := by
+  decide +kernel
+
+/-- non-vacuity of T3 for a neighbourhood LARGER than the image (round 4): a 7×5 all-ones element on a 2×3 surface, an
+even-sided 2×4 element, and the empty (all-zero) element — model = specification, queues drained; with the large
+element every pixel is a neighbour of every pixel, so the two markers race for the whole image by cost and index. -/
+example :
+    let surf : Img Int := ⟨[2, 3], #[3, 1, 2, 1, 0, 1]⟩
+    let mk : Img Int := ⟨[2, 3], #[1, 0, 0, 0, 0, 2]⟩
+    (cwatershedModel surf mk [7, 5] (Array.replicate 35 1)).res = #[1, 2, 2, 2, 2, 2] ∧
+    (cwatershedSpec surf mk [7, 5] (Array.replicate 35 1)).label.data = #[1, 2, 2, 2, 2, 2] ∧
+    (cwatershedModel surf mk [7, 5] (Array.replicate 35 1)).lines
+      = (cwatershedSpec surf mk [7, 5] (Array.replicate 35 1)).lines.data ∧
+    (cwatershedModel surf mk [2, 4] (Array.replicate 8 1)).res
+      = (cwatershedSpec surf mk [2, 4] (Array.replicate 8 1)).label.data ∧
+    (cwatershedModel surf mk [3, 3] (Array.replicate 9 0)).res = #[1, 0, 0, 0, 0, 2] := by
   decide +kernel
